@@ -18,7 +18,27 @@ TOLS = [1e-10, 1e-8, 1e-6, 1e-4]
 STARTS = ["inside", "near", "far", "veryfar"]
 
 
-def set_bank(n, salt=0):
+OFFSET = [300.0, 400.0, -200.0, 150.0, -350.0, 250.0]
+
+
+def translate(spec, off):
+    spec = dict(spec)
+    off = np.array(off, dtype=float)
+    if spec["t"] == "ball":
+        spec["c"] = (np.array(spec["c"]) + off).tolist()
+    elif spec["t"] == "half":
+        spec["b"] = float(spec["b"] + np.dot(spec["a"], off))
+    else:
+        spec["l"] = (np.array(spec["l"]) + off).tolist()
+        spec["u"] = (np.array(spec["u"]) + off).tolist()
+    return spec
+
+
+def set_bank(n, salt=0, off=0):
+    """off=1: the same geometry translated far away from the origin (everything the routine does is translation
+    invariant, so every clause must hold there too)."""
+    if off:
+        return [translate(sp, OFFSET[:n]) for sp in set_bank(n, salt, 0)]
     e = 0.003 * salt
 
     def vec(*first):
@@ -43,7 +63,9 @@ def set_bank(n, salt=0):
     ]
 
 
-def start_point(name, n, salt=0):
+def start_point(name, n, salt=0, off=0):
+    if off:
+        return start_point(name, n, salt, 0) + np.array(OFFSET[:n])
     e = 0.01 * salt
     if name == "inside":
         return np.full(n, 0.1)
@@ -81,15 +103,20 @@ def cases(tier, salts):
                             if mi != 100 and tol not in (1e-10, 1e-6):
                                 continue
                             out.append({"n": n, "sel": list(sel), "start": st, "tol": tol, "max_iter": mi, "salt": salt})
-    out.sort(key=lambda c: (c["n"], c["salt"], sorted(c["sel"]), c["start"]))
+                            if mi == 100 and tol in (1e-10, 1e-6) and (len(sel) <= 2 or tier == "thorough" or sel[0] < 3):
+                                out.append({"n": n, "sel": list(sel), "start": st, "tol": tol, "max_iter": mi, "salt": salt, "off": 1})
+    out.sort(key=lambda c: (c["n"], c["salt"], c.get("off", 0), sorted(c["sel"]), c["start"]))
     return out
 
 
 _REF = {}
 
 
-def reference_projection(n, salt, sel, start):
+def reference_projection(n, salt, sel, start, off=0):
     """True projection of the start point onto the intersection (order-independent), with a KKT certificate."""
+    if off:   # computed near the origin (where it is accurate) and translated
+        ref, cert = reference_projection(n, salt, sel, start, 0)
+        return ref + np.array(OFFSET[:n]), cert
     key = (n, salt, tuple(sorted(set(sel))), start)
     if key in _REF:
         return _REF[key]
@@ -164,11 +191,12 @@ def reference_projection(n, salt, sel, start):
 def check_case(case):
     from dfols.util import dykstra
     n, salt = case["n"], case["salt"]
-    specs = set_bank(n, salt)
+    off = case.get("off", 0)
+    specs = set_bank(n, salt, off)
     sets = [bank.CSet(specs[i]) for i in case["sel"]]
     p = len(sets)
-    x0 = start_point(case["start"], n, salt)
-    common_pt = np.full(n, 0.1)
+    x0 = start_point(case["start"], n, salt, off)
+    common_pt = np.full(n, 0.1) + (np.array(OFFSET[:n]) if off else 0.0)
     for s in sets:
         if s.dist(common_pt) > 0:
             raise common.HarnessError("bank set %s does not contain the common point" % (s.spec,))
@@ -204,7 +232,7 @@ def check_case(case):
     elif case["max_iter"] >= 100 and not stopped and case["tol"] <= 1e-8:
         tags.append("optimality_eligible_but_capped")
     elif stopped:
-        ref, cert = reference_projection(n, salt, case["sel"], case["start"])
+        ref, cert = reference_projection(n, salt, case["sel"], case["start"], off)
         if cert <= 1e-7:
             tags.append("optimality_checked")
             err = float(np.linalg.norm(out - ref))
@@ -221,6 +249,8 @@ def check_case(case):
             tags.append("reference_uncertified")
     if sweeps > 3:
         tags.append("many_sweeps")
+    if off:
+        tags.append("translated")
     return v, tags
 
 
